@@ -18,6 +18,7 @@ import (
 	"go/token"
 	"go/types"
 	"os"
+	"os/exec"
 	"path/filepath"
 	"sort"
 	"strconv"
@@ -31,14 +32,15 @@ const lalMod = "github.com/q191201771/lal"
 const zzsimPath = lalMod + "/pkg/zzsim"
 
 type stats struct {
-	Packages  int            `json:"packages"`
-	Files     int            `json:"files_rewritten"`
-	Rewrites  map[string]int `json:"rewrites"`
-	MapKeys   map[string]int `json:"map_range_key_types"`
-	Mutexes   []string       `json:"mutex_sites"`
-	GoStmts   int            `json:"go_statements"`
-	Shims     []string       `json:"shims"`
-	Unhandled []string       `json:"unhandled"`
+	Packages   int            `json:"packages"`
+	Files      int            `json:"files_rewritten"`
+	Rewrites   map[string]int `json:"rewrites"`
+	MapKeys    map[string]int `json:"map_range_key_types"`
+	Mutexes    []string       `json:"mutex_sites"`
+	GoStmts    int            `json:"go_statements"`
+	Shims      []string       `json:"shims"`
+	ModOverlay []string       `json:"mod_overlay"`
+	Unhandled  []string       `json:"unhandled"`
 }
 
 func die(format string, a ...interface{}) {
@@ -50,6 +52,7 @@ func main() {
 	repo := flag.String("repo", "/repo", "lal working tree")
 	zz := flag.String("zzsim", "", "directory with the zzsim package sources")
 	shims := flag.String("shims", "", "directory with export shims: <pkg>/zz_*.go")
+	modov := flag.String("modoverlay", "", "directory mirroring the module cache: files here replace the same relative path under GOMODCACHE")
 	out := flag.String("out", "", "output directory (scratch)")
 	flag.Parse()
 	if *out == "" || *zz == "" {
@@ -147,6 +150,26 @@ func main() {
 			st.Shims = append(st.Shims, pkgdir+"/"+filepath.Base(sf))
 		}
 	}
+	if *modov != "" {
+		mc, err := exec.Command("go", "env", "GOMODCACHE").Output()
+		if err != nil {
+			die("go env GOMODCACHE: %v", err)
+		}
+		modcache := strings.TrimSpace(string(mc))
+		root, _ := filepath.Abs(*modov)
+		_ = filepath.Walk(root, func(p string, fi os.FileInfo, err error) error {
+			if err != nil || fi.IsDir() || !strings.HasSuffix(p, ".go") {
+				return nil
+			}
+			rel := strings.TrimPrefix(p, root+"/")
+			if _, err := os.Stat(filepath.Dir(filepath.Join(modcache, rel))); err != nil {
+				die("modoverlay: %s has no counterpart in the module cache", rel)
+			}
+			overlay[filepath.Join(modcache, rel)] = p
+			st.ModOverlay = append(st.ModOverlay, rel)
+			return nil
+		})
+	}
 	ob, _ := json.MarshalIndent(map[string]interface{}{"Replace": overlay}, "", " ")
 	if err := os.WriteFile(filepath.Join(*out, "overlay.json"), ob, 0o644); err != nil {
 		die("%v", err)
@@ -170,6 +193,9 @@ type weaver struct {
 	changed bool
 	fn      string // enclosing function name for lock sites
 	nmap    int
+
+	needNazanet bool
+	usesZz      bool
 }
 
 func (w *weaver) pos(n ast.Node) string {
@@ -179,6 +205,7 @@ func (w *weaver) pos(n ast.Node) string {
 
 func (w *weaver) zz(name string) ast.Expr {
 	w.changed = true
+	w.usesZz = true
 	return &ast.SelectorExpr{X: ast.NewIdent("zzsim"), Sel: ast.NewIdent(name)}
 }
 
@@ -211,30 +238,30 @@ func identOf(e ast.Expr) *ast.Ident {
 }
 
 var funcSeams = map[string]string{
-	"net.Listen":          "NetListen",
-	"net.Dial":            "NetDial",
-	"net.DialTimeout":     "NetDialTimeout",
-	"crypto/tls.Dial":     "TlsDial",
-	"crypto/tls.Listen":   "TlsListen",
-	"os.Create":           "OsCreate",
-	"os.Open":             "OsOpen",
-	"os.MkdirAll":         "OsMkdirAll",
-	"os.Exit":             "OsExit",
-	"crypto/rand.Read":    "RandRead",
-	"math/rand.Int":       "RandInt",
-	"math/rand.Uint32":    "RandUint32",
-	"math/rand.Seed":      "RandSeed",
-	"math/rand.Intn":      "RandIntn",
-	"math/rand.Int63":     "RandInt63",
-	"math/rand.Int31":     "RandInt31",
-	"math/rand.Uint64":    "RandUint64",
-	"math/rand.Float64":   "RandFloat64",
-	"math/rand.Read":      "RandRead",
-	"math/rand.Int31n":    "RandInt31n",
-	"math/rand.Int63n":    "RandInt63n",
-	"math/rand.Perm":      "RandPerm",
-	"math/rand.Shuffle":   "RandShuffle",
-	"math/rand.Float32":   "RandFloat32",
+	"net.Listen":            "NetListen",
+	"net.Dial":              "NetDial",
+	"net.DialTimeout":       "NetDialTimeout",
+	"crypto/tls.Dial":       "TlsDial",
+	"crypto/tls.Listen":     "TlsListen",
+	"os.Create":             "OsCreate",
+	"os.Open":               "OsOpen",
+	"os.MkdirAll":           "OsMkdirAll",
+	"os.Exit":               "OsExit",
+	"crypto/rand.Read":      "RandRead",
+	"math/rand.Int":         "RandInt",
+	"math/rand.Uint32":      "RandUint32",
+	"math/rand.Seed":        "RandSeed",
+	"math/rand.Intn":        "RandIntn",
+	"math/rand.Int63":       "RandInt63",
+	"math/rand.Int31":       "RandInt31",
+	"math/rand.Uint64":      "RandUint64",
+	"math/rand.Float64":     "RandFloat64",
+	"math/rand.Read":        "RandRead",
+	"math/rand.Int31n":      "RandInt31n",
+	"math/rand.Int63n":      "RandInt63n",
+	"math/rand.Perm":        "RandPerm",
+	"math/rand.Shuffle":     "RandShuffle",
+	"math/rand.Float32":     "RandFloat32",
 	"math/rand.NormFloat64": "RandNormFloat64",
 }
 
@@ -344,6 +371,17 @@ func (w *weaver) run() bool {
 		case *ast.CallExpr:
 			w.rewriteCall(n)
 		case *ast.SelectorExpr:
+			// the concrete type net.UDPConn -> nazanet.ZzUDPConn (naza's nazanet is overlaid with a copy whose
+			// sockets go to the simulator; see /verif/modoverlay)
+			if tn, isTn := w.pkg.TypesInfo.Uses[n.Sel].(*types.TypeName); isTn && tn.Pkg() != nil && tn.Pkg().Path() == "net" && tn.Name() == "UDPConn" {
+				if _, isPkg := w.pkg.TypesInfo.Uses[identOf(n.X)].(*types.PkgName); isPkg {
+					w.st.Rewrites["type:net.UDPConn"]++
+					w.changed = true
+					w.needNazanet = true
+					c.Replace(&ast.SelectorExpr{X: ast.NewIdent("zznazanet"), Sel: ast.NewIdent("ZzUDPConn")})
+					return false
+				}
+			}
 			if pp, name, ok := w.pkgFunc(n); ok {
 				if seam, has := funcSeams[pp+"."+name]; has {
 					w.st.Rewrites["func:"+pp+"."+name]++
@@ -387,7 +425,12 @@ func (w *weaver) run() bool {
 	})
 
 	if w.changed {
-		astutil.AddImport(w.fset, w.file, zzsimPath)
+		if w.usesZz {
+			astutil.AddImport(w.fset, w.file, zzsimPath)
+		}
+		if w.needNazanet {
+			astutil.AddNamedImport(w.fset, w.file, "zznazanet", "github.com/q191201771/naza/pkg/nazanet")
+		}
 		// imports that the rewrites made unused
 		for _, path := range []string{"net", "os", "crypto/tls", "math/rand", "crypto/rand", "sync"} {
 			if !astutil.UsesImport(w.file, path) {
